@@ -61,7 +61,8 @@ def generate(tier, seed):
         reqs.append("(%s)" % nm)
         for a in ks: reqs.append("(%s %s)" % (nm, a))
         pairs = list(itertools.product(ks, repeat=2))
-        if tier == "quick": pairs = rng.sample(pairs, 60)
+        if tier == "quick" and nm not in ("+", "-", "*", "/", "mod", "max", "min", "<", "<=", ">", ">=", "expt", "nth", "nthcdr", "last", "dotimes"):
+            pairs = rng.sample(pairs, 60)        # numeric functions always get the full product (extremes x extremes)
         for a, b in pairs: reqs.append("(%s %s %s)" % (nm, a, b))
         for n in (3, 4):
             for _ in range(12 if tier == "quick" else 150):
@@ -70,6 +71,9 @@ def generate(tier, seed):
         for a in rng.sample(ks, 4):
             reqs.append("(funcall '%s %s)" % (nm, a))
             reqs.append("(mapcar '%s (list %s %s))" % (nm, a, rng.choice(ks)))
+    nums = ["0", "1", "-1", "2", "9223372036854775807", "-9223372036854775808", "0.0", "1.5", "(expt 10.0 400)"]
+    for nm in ["+", "-", "*", "/", "max", "min"]:
+        for t in itertools.product(nums, repeat=3): reqs.append("(%s %s)" % (nm, " ".join(t)))
     for t in TEMPLATES:
         for p in prefixes(t): reqs.append(p)
     for a in ["nil", "(progn nil)", "'()"]:
